@@ -109,6 +109,12 @@ impl TopicActor {
                 responder,
             } => {
                 let result = self.publish_messages(messages).await;
+                #[cfg(deltio_verif)]
+                crate::verif_ev!(
+                    "topic {} publish.reply {}",
+                    self.topic_internal_id,
+                    if result.is_ok() { "ok" } else { "err" }
+                );
                 let _ = responder.send(result);
             }
 
